@@ -367,6 +367,21 @@ func check(c Case) vlib.Outcome {
 		}
 		features[f.ID.ID()] = f
 	}
+	// polygons are polygons: holes inside their shell, no loops crossing
+	for _, f := range c.Set.Features {
+		for _, p := range f.Polys {
+			if len(p.Loops) > 0 && !wm.ValidPoly(p) {
+				return vlib.Outcome{Skip: true, Classes: []string{"skipped:polygon-not-valid"}}
+			}
+		}
+	}
+	for _, q := range c.Queries {
+		for _, p := range q.Polys {
+			if !wm.ValidPoly(p) {
+				return vlib.Outcome{Skip: true, Classes: []string{"skipped:polygon-not-valid"}}
+			}
+		}
+	}
 	w, err := wm.BuildBasic(c.Set.Features, 1, true)
 	if err != nil {
 		return vlib.Outcome{Skip: true, Classes: []string{"skipped:set-not-valid"}}
